@@ -669,12 +669,13 @@ func (h *Harness) agree(exp Expect, obs Observed, prefix []string, fd *ast.Field
 // AllQuirks lists the named deviations in the order they are tried.
 var AllQuirks = []string{QStringFromJSONNumber, QIntFromNumericString, QFloatFromNumStringVar, QIDFromJSONFloat, QInt32FromString, QInt64FromString, QUintFromString, QUint32FromString, QUint64FromString,
 	QFloatModelFromString, QFloatNonFiniteString,
-	QUnsetVarFieldIsNull, QStrictVarPosition, QPanicHugeIntLiteral, QPanicNullInNestedList}
+	QUnsetVarFieldIsNull, QNullFieldDefaultNotApplied, QStrictVarPosition, QPanicHugeIntLiteral, QPanicNullInNestedList}
 
 // Verdict of one case.
 type Verdict struct {
 	Kind string // "pass" "quirk" "violation"
 	Sig  string
+	Sig2 string // second deviation of a pair (quirk verdicts only)
 	What string
 	// Expect under the primary interpretation (for reports)
 	Primary Expect
@@ -716,13 +717,33 @@ func (h *Harness) Judge(c Case, obs Observed) Verdict {
 		}
 		note(why)
 	}
-	for _, q := range AllQuirks {
-		for _, in := range interps {
-			_, why := eval(in, Quirks{q: true})
-			if why == "" {
-				return Verdict{Kind: "quirk", Sig: q, What: firstWhy, Primary: primary}
+	// one named deviation: first under the primary interpretation (the common case), then
+	// under the others
+	for pass := 0; pass < 2; pass++ {
+		for _, q := range AllQuirks {
+			ins := interps[:1]
+			if pass == 1 {
+				ins = interps[1:]
 			}
-			note(why)
+			for _, in := range ins {
+				_, why := eval(in, Quirks{q: true})
+				if why == "" {
+					return Verdict{Kind: "quirk", Sig: q, What: firstWhy, Primary: primary}
+				}
+				note(why)
+			}
+		}
+	}
+	// two deviations at once: the null-default deviation together with one other (an omitted
+	// `= null` field next to, say, an unset variable); both are reported
+	for _, q := range AllQuirks {
+		if q == QNullFieldDefaultNotApplied {
+			continue
+		}
+		for _, in := range interps {
+			if _, why := eval(in, Quirks{q: true, QNullFieldDefaultNotApplied: true}); why == "" {
+				return Verdict{Kind: "quirk", Sig: q, Sig2: QNullFieldDefaultNotApplied, What: firstWhy, Primary: primary}
+			}
 		}
 	}
 	if detail == "" {
@@ -765,6 +786,7 @@ type Result struct {
 	ByMode       map[string]int `json:"by_mode"`
 	Verdicts     map[string]int `json:"verdicts"`
 	Complete     bool           `json:"complete"`
+	RunS         float64        `json:"run_s"`
 	Findings     []Finding      `json:"findings"`
 	Samples      []Sample       `json:"samples"`
 }
@@ -827,6 +849,7 @@ func HarnessMain(es graphql.ExecutableSchema, stub any) {
 	if s := argValue("--max-steps"); s != "" {
 		maxSteps, _ = strconv.Atoi(s)
 	}
+	t0 := time.Now()
 	g := &Gen{Schema: h.Schema, MaxSteps: maxSteps}
 	cases := g.All()
 	var deadline time.Time
@@ -896,17 +919,23 @@ func HarnessMain(es graphql.ExecutableSchema, stub any) {
 		}
 		res.Verdicts[s.v.Kind]++
 		if s.v.Kind != "pass" {
-			if idx, seen := bySig[s.v.Sig]; seen {
-				res.Findings[idx].Count++
-			} else {
-				bySig[s.v.Sig] = len(res.Findings)
-				res.Findings = append(res.Findings, Finding{Sig: s.v.Sig, Quirk: s.v.Kind == "quirk", What: s.v.What, Case: c, Obs: s.obs, Count: 1})
+			for _, sig := range []string{s.v.Sig, s.v.Sig2} {
+				if sig == "" {
+					continue
+				}
+				if idx, seen := bySig[sig]; seen {
+					res.Findings[idx].Count++
+				} else {
+					bySig[sig] = len(res.Findings)
+					res.Findings = append(res.Findings, Finding{Sig: sig, Quirk: s.v.Kind == "quirk", What: s.v.What, Case: c, Obs: s.obs, Count: 1})
+				}
 			}
 		} else if nontrivial && !sampled[c.Mode] && len(res.Samples) < 8 {
 			sampled[c.Mode] = true
 			res.Samples = append(res.Samples, Sample{Case: c, Expected: expectString(s.v.Primary), Obs: s.obs})
 		}
 	}
+	res.RunS = time.Since(t0).Seconds()
 	out, _ := json.Marshal(res)
 	os.Stdout.Write(append(out, '\n'))
 }
